@@ -66,7 +66,7 @@ def idx(out, name):
 def run(ctx):
     ctx.coq_props()
     quick = ctx.tier == "quick"
-    n_gen = 700 if quick else 12000
+    n_gen = 1000 if quick else 12000
     n_wild = 400 if quick else 6000
     binp = ctx.go_build("c23")
     if not binp:
